@@ -116,7 +116,7 @@ def fmt_cases(rng, t, quick):
 
 
 # ------------------------------------------------------------------------------------------------ input names
-NAME_POOL = ["main.asm", "noext", "dir/main.asm", "a.b.asm", ".asm", "main.", "main.bin", "main.txt", "main.mlb", "dir/", "dir/.",
+NAME_POOL = ["proj.v2/main", "../main", "./prog", ".hidden", "a.b/c.d/e", "proj.v2/main.asm", "a.b/c", "../a.b/main", "v1.2/x.y/z", "main.asm", "noext", "dir/main.asm", "a.b.asm", ".asm", "main.", "main.bin", "main.txt", "main.mlb", "dir/", "dir/.",
              "dir/..", "", "/", ".", "..", "...", "a..b", "./main.asm", "./main.bin", "a//b.asm", "main.asm/", "x/./", "./", "./.",
              "dir\\main.asm", "dir\\main.bin", "\\", "ünï.asm", "main.BIN", "/abs/main.asm", ".hidden.asm", "..x", "a/.b",
              "a.b/c", "a.b/c.d", " ", "main.asm ", "main.bin/", "main.bin/.", "./main.txt", "dir/main.txt", "a/b/../c.asm", "//", "/.",
